@@ -69,7 +69,8 @@ def main():
             os.fsync(f.fileno())
         os.replace(tmp, os.path.join(cfg["logdir"], f"digest-{seq}.json"))
         r = orig_dump(data, filename, module, save_existing=save_existing)
-        log(ev="ckpt", seq=seq, it=int(data.iteration), pts=int(model.b_points), counter=int(data.model.likelihood_evaluations),
+        mid = (not ins) and getattr(data, "live_points", None) is not None and len(data.nested_samples) != len(data.insertion_indices)
+        log(ev="ckpt", seq=seq, it=int(data.iteration), mid_iteration=bool(mid), pts=int(model.b_points), counter=int(data.model.likelihood_evaluations),
             sampling_time=data.sampling_time.total_seconds(), training_time=data.training_time.total_seconds(),
             likelihood_evaluation_time=data.model.likelihood_evaluation_time.total_seconds())
         return r
